@@ -1,0 +1,24 @@
+//go:build verif
+
+package keeper
+
+import "github.com/tendermint/fundraising/x/fundraising/types"
+
+// VerifInstrument, when set, is called with every Keeper built by NewKeeper
+// before it is returned (and copied into the AppModule). It exists only in
+// builds with the "verif" tag and lets a deterministic-simulation harness wrap
+// the keeper's external dependencies to record calls and inject failures.
+var VerifInstrument func(*Keeper)
+
+func verifInstrument(k *Keeper) {
+	if VerifInstrument != nil {
+		VerifInstrument(k)
+	}
+}
+
+func (k *Keeper) VerifBank() types.BankKeeper            { return k.bankKeeper }
+func (k *Keeper) VerifSetBank(b types.BankKeeper)        { k.bankKeeper = b }
+func (k *Keeper) VerifDistr() types.DistrKeeper          { return k.distrKeeper }
+func (k *Keeper) VerifSetDistr(d types.DistrKeeper)      { k.distrKeeper = d }
+func (k *Keeper) VerifHooks() types.FundraisingHooks     { return k.hooks }
+func (k *Keeper) VerifSetHooks(h types.FundraisingHooks) { k.hooks = h }
